@@ -11,6 +11,7 @@ Edits (indices = pre-order index in the INITIAL tree):
   ["move", i, p]            node.parent = p            (appended as last child of p)
   ["reattach", i]           node.parent = None; node.parent = old parent   (ends up last)
   ["reorder", p, [c...]]    p.children = [those children in that order]
+  ["delre", p]              kids = list(p.children); del p.children; p.children = kids   (the deleter runs no hooks)
   ["failmove", i, p]        node.parent = p where p is node or lies below it (or, Node: p already has a child of
                             that name): refused by bigtree, the caller catches the error; nothing changes
   ["hookmove", i, p, pt]    node.parent = p, a VALID move, but the user's pre-/post-assign hook (pt) first reads the
@@ -89,7 +90,7 @@ def apply_abstract(nodes, e):
     elif k == "reorder":
         p = nodes[e[1]]
         p.kids = [nodes[c] for c in e[2]]
-    elif k in ("hookmove", "hookkids"):
+    elif k in ("hookmove", "hookkids", "delre"):
         pass
     elif k == "failmove":
         pass
@@ -163,6 +164,10 @@ def random_edits(rng: random.Random, spec, count, alphabet, kinds=("rename", "sw
                 perm = [c.idx for c in p.kids]
                 rng.shuffle(perm)
                 e = ["reorder", p.idx, perm]
+        elif k == "delre":
+            ps = [p for p in nodes if len(p.kids) >= 1]
+            if ps:
+                e = ["delre", rng.choice(ps).idx]
         elif k == "hookmove" and len(nodes) > 2 and inner:
             n = rng.choice(inner)
             cands = [p for p in nodes if p is not n.parent and not _in_subtree(n, p)
@@ -275,6 +280,10 @@ def apply_real(objs, e):
         n.parent = p
     elif k == "reorder":
         objs[e[1]].children = [objs[c] for c in e[2]]
+    elif k == "delre":
+        kids = list(objs[e[1]].children)
+        del objs[e[1]].children
+        objs[e[1]].children = kids
     elif k == "failmove":
         try:
             objs[e[1]].parent = objs[e[2]]
